@@ -203,6 +203,21 @@ def lattice_problems(case):
                         probs.append(("lattice:%s:%s:%s" % (kind, fmt, layout if vec else "scalar"),
                                       "%s: symmetric=%s format=%s layout=%s differs from the reference configuration by %s"
                                       % (name, symm, fmt, layout, np.abs(got - want).max() if got.shape == want.shape else "shape %s vs %s" % (got.shape, want.shape))))
+                    if fmt == "mlb" and got.shape == want.shape:
+                        # the multi-level banded result is an operator: its products with every unit vector, all kept
+                        # until the last one has been computed, are the columns of the reference matrix
+                        n_cmp += 1
+                        ys = []
+                        for j in range(want.shape[1]):
+                            e = np.zeros(want.shape[1])
+                            e[j] = 1.0
+                            ys.append(A.dot(e))
+                        Y = np.column_stack(ys)
+                        if Y.shape != want.shape or not np.abs(Y - want).max() <= RT * scale:
+                            probs.append(("lattice:mlb:operator:%s" % layout,
+                                          "%s: symmetric=%s format=mlb layout=%s: the products with all unit vectors (results kept "
+                                          "until the end) differ from the reference matrix by %s"
+                                          % (name, symm, layout, np.abs(Y - want).max() if Y.shape == want.shape else "shape %s" % (Y.shape,))))
         # (2) subsets
         if not vec:
             kvs0, kvs1 = asm.kvs
